@@ -31,7 +31,7 @@ type EngSpec struct {
 	T0      int64      // exploration starts here
 	Setup   []Step     // executed by the root before exploration (client "s"), each followed by quiescence
 	Threads [][]Step   // client threads "a","b","c",...
-	DrainTo int64      // after the threads are done: advance to this instant (0 = T0+14s)
+	DrainTo int64      // after the threads are done: advance to this instant (0 = T0+3s)
 	Unlock  []hapi.Cmd // issued sequentially after the first drain (client "s"), then a second drain
 	Fine    bool
 	Points  int64
@@ -151,7 +151,7 @@ func EngineScenario(spec *EngSpec, monitors []MonitorFactory, oracles []Oracle, 
 			run.AfterRun = node.Snapshot()
 			drain := spec.DrainTo
 			if drain == 0 {
-				drain = t0 + 14*sec
+				drain = t0 + 3*sec
 			}
 			vrt.AdvanceTo(drain)
 			run.Drained = node.Snapshot()
